@@ -215,20 +215,35 @@ def r3_defaulting(ctx):
         if cname in ('Link', 'Eqpt') and len(lp) == 1:
             body = lp[0].body
             sets = [s for s in body if isinstance(s, ast.Expr) and isinstance(s.value, ast.Call) and getattr(s.value.func, 'id', '') == 'setattr']
-            gets = [s for s in body if isinstance(s, ast.Assign) and isinstance(s.value, ast.Call) and getattr(s.value.func, 'attr', '') == 'get']
+            # the value of each setattr: a `.get(key, default)` call, held in a local of the loop body or written in place
+            def reaching(name, before):
+                ds = [s for s in body[:body.index(before)] if isinstance(s, ast.Assign) and isinstance(s.targets[0], ast.Name) and s.targets[0].id == name]
+                return ds[-1] if ds else None
+
+            class _G:
+                def __init__(self, st):
+                    a = st.value.args[2] if len(st.value.args) == 3 else None
+                    d = reaching(a.id, st) if isinstance(a, ast.Name) else None
+                    self.var = a.id if d is not None else None
+                    self.stmt = d if d is not None else st
+                    self.value = d.value if d is not None else a
+                    self.lineno = self.stmt.lineno
+            gets = [g for g in (_G(s) for s in sets) if isinstance(g.value, ast.Call) and getattr(g.value.func, 'attr', '') == 'get' and
+                    len(g.value.args) == 2]
             ok = len(sets) == 2 and len(gets) == 2
             det = ''
             if ok:
                 dv = lp[0].target.elts[1].id                      # the table default
                 g_e, g_w = gets
-                east_var, west_var = g_e.targets[0].id, g_w.targets[0].id
+                east_var = g_e.var
                 d_e, d_w = ast.unparse(g_e.value.args[1]), ast.unparse(g_w.value.args[1])
                 det = f'east default {d_e}; west default {d_w} (east value in {east_var})'
                 if cname == 'Link':
                     # west falls back to the value just computed for east
-                    ok = d_e == dv and d_w == east_var
+                    ok = d_e == dv and reaching(dv, g_e.stmt) is None and east_var is not None and d_w == east_var and \
+                        reaching(east_var, g_w.stmt) is g_e.stmt
                 else:
-                    ok = d_e == dv and d_w == dv and east_var != dv
+                    ok = d_e == dv and d_w == dv and reaching(dv, g_e.stmt) is None and reaching(dv, g_w.stmt) is None
                 rk = [s for s in body if isinstance(s, ast.Assign) and "'west'" in ast.unparse(s.value)]
                 kv = lp[0].target.elts[0].id
                 ok = ok and len(rk) == 1 and ast.unparse(rk[0].value) == f"'west' + {kv}.rsplit('east', maxsplit=1)[-1]" and \
